@@ -390,6 +390,14 @@ func genContainer(g *Gen, prop string, i int) Group {
 		h.MaxScopes = 6
 	}
 	regs := g.RegSet(cfg)
+	if prop == "C05" && i%20 == 13 {
+		// a result object refused after it had entered two members of one group: nothing of it may stay behind (a member
+		// left in its group has no node in the dependency graph, so the cycle check would not see what it depends on)
+		g.forceBlock = true
+		gr := g.multiOutCase(i)
+		g.forceBlock = false
+		return gr
+	}
 	if (prop == "C07" && i%7 == 5) || (prop == "C02" && i%13 == 5) {
 		return g.mixedGroupCase(i)
 	}
